@@ -255,6 +255,13 @@ func (c *Ctx) S2(ob *core.Obligation, f *Family) {
 		if _, ex := f.Exempt[core.FuncName(sw.Func)]; ex {
 			continue
 		}
+		// a function that only names the kind / type of a node (it returns a string) is not a
+		// traversal: it has no children to visit
+		if sig, ok := sw.Func.Type().(*types.Signature); ok && sig.Results().Len() == 1 {
+			if bt, ok := sig.Results().At(0).Type().Underlying().(*types.Basic); ok && bt.Kind() == types.String {
+				continue
+			}
+		}
 		c.R.Functions[core.FuncName(sw.Func)] = true
 		key := c.switchKey(sw)
 		info := sw.Pkg.TypesInfo
